@@ -366,6 +366,9 @@ type pongMsg struct {
 // typeTags returns the possible type bytes for the given reflect.Type, which
 // should be a struct. The possible values are separated by a '|' character.
 func typeTags(structType reflect.Type) (tags []byte) {
+	if structType.NumField() == 0 {
+		return nil
+	}
 	tagStr := structType.Field(0).Tag.Get("sshtype")
 
 	for _, tag := range strings.Split(tagStr, "|") {
@@ -796,6 +799,9 @@ var bigIntType = reflect.TypeFor[*big.Int]()
 
 // Decode a packet into its corresponding message.
 func decode(packet []byte) (interface{}, error) {
+	if len(packet) == 0 {
+		return nil, errShortRead
+	}
 	var msg interface{}
 	switch packet[0] {
 	case msgDisconnect:
